@@ -2,15 +2,16 @@
 # usage: tools/seedrecheck.sh <seed-name> <property-id>...   (re-runs checks against an already stored seed)
 set -u
 NAME=$1; shift
-V=/verif; OUT=$V/seeded/$NAME
-[ -z "$(git -C /repo status --porcelain)" ] || { echo "/repo not clean"; exit 2; }
-git -C /repo apply $OUT/patch.diff || exit 2
+R=${SEED_REPO:-/repo}; V=${SEED_VERIF:-/verif}; OUT=/verif/seeded/$NAME
+[ "$R" != /repo ] && export XV_REPO=$R
+[ -z "$(git -C $R status --porcelain)" ] || { echo "/repo not clean"; exit 2; }
+git -C $R apply $OUT/patch.diff || exit 2
 RES=""
 for P in "$@"; do
   ( cd $V && VERIF_OUT_DIR=/tmp/seedrun.$$ ./check $P quick > $OUT/check_$P.txt 2>&1; echo "exit=$?" >> $OUT/check_$P.txt )
   RES="$RES $P:$(tail -1 $OUT/check_$P.txt)"
   grep -m2 -E '^(VIOLATION|-- )' $OUT/check_$P.txt | cut -c1-300
 done
-git -C /repo checkout -- . ; git -C /repo status --short | head -3
+git -C $R checkout -- . ; git -C $R status --short | head -3
 rm -rf /tmp/seedrun.$$
 echo "RESULT $NAME:$RES"
